@@ -51,6 +51,7 @@ for _m in _SVC.method:
     out = _m.output_type.split(".")[-1]
     METHODS.append(("_" + _m.name, _m.name, _snake(_m.name), bool(r.body), None if _m.output_type == ".google.protobuf.Empty" else out,
                     _m.server_streaming))
+OWN = {("_" + _m.name): _m.output_type.startswith("." + _FDP.package + ".") for _m in _SVC.method}
 N = len(METHODS)
 
 
@@ -81,6 +82,18 @@ class _Types:
         if name not in _OutType.registry:
             _OutType.registry[name] = type(name, (_OutType,), {})
         return _OutType.registry[name]
+
+
+class _RawTypes:
+    """stand-in for a protoc-generated *_pb2 module: its classes are raw protobuf messages (no `.pb()`)"""
+    registry = {}
+
+    def __getattr__(self, name):
+        if name.startswith("__"):
+            raise AttributeError(name)
+        if name not in _RawTypes.registry:
+            _RawTypes.registry[name] = type(name, (), {})
+        return _RawTypes.registry[name]
 
 
 class HttpErr(Exception):
@@ -177,6 +190,7 @@ def one(idx, status_i, with_timeout, with_md):
         "json_format": NS(Parse=lambda content, pb, ignore_unknown_fields=False: parsed.append((content, pb, ignore_unknown_fields))),
         "library": _Types(), "CLIENT_LOGGING_SUPPORTED": False, "_LOGGER": None, "logging": NS(DEBUG=10),
         "rest_streaming": NS(ResponseIterator=lambda resp, t: ("ITER", resp, t)),
+        "status_pb2": _RawTypes(), "operations_pb2": _RawTypes(), "empty_pb2": _RawTypes(),
     }
     exec(CODE[cls][0], ns)
     fn = ns["__call__"]
@@ -231,9 +245,17 @@ def one(idx, status_i, with_timeout, with_md):
     if len(parsed) != 1:
         return f"{cls}: {len(parsed)} parse calls"
     content, pb, iuf = parsed[0]
-    if content != ("CONTENT", rpc) or iuf is not True or pb[0] != "PB" or type(pb[1]).__name__ != out_t:
+    if OWN[cls]:
+        # proto-plus response: the parse target is the underlying protobuf of a fresh instance of the declared type
+        target_ok = isinstance(pb, tuple) and pb[0] == "PB" and type(pb[1]).__name__ == out_t
+        inst = pb[1] if target_ok else None
+    else:
+        # raw protobuf response (another package): the fresh instance itself is the parse target
+        target_ok = not isinstance(pb, tuple) and type(pb).__name__ == out_t
+        inst = pb
+    if content != ("CONTENT", rpc) or iuf is not True or not target_ok:
         return f"{cls}: parsed {content!r} into {pb!r} (ignore_unknown_fields={iuf}); expected the content into a {out_t}"
-    ok = (isinstance(res, tuple) and res[0] == "POSTMD" and res[1][0] == "POST" and res[1][1] is pb[1])
+    ok = (isinstance(res, tuple) and res[0] == "POSTMD" and res[1][0] == "POST" and res[1][1] is inst)
     if not ok:
         return f"{cls}: returned {res!r}, not the parsed {out_t} after the post-interceptors"
     posts = [c for c in calls if c[0] in ("post", "postmd")]
